@@ -710,3 +710,41 @@ K("_get_nearest_neighbors", "funcnet", props=("C10", "C20"),
 for _k in REG["_get_nearest_neighbors"][0].contract.loops:
     REG["_get_nearest_neighbors"][0].contract.loops[_k] = REG["_get_nearest_neighbors"][0].contract.loops[_k] + \
         ["all(0<=indexfound[q] and indexfound[q]<T for q in range(T))"]
+
+# ============================================================================ Python master loops of the distributed measures (C19)
+# CHUNKS / SUBMIT / COLLECT on the real master code: the region `if mpi.available:` of each method is
+# executed symbolically (py_mode).  N is the size of the connected component (>= 2: components with one
+# node are skipped by the callers), mpi.size >= 2.
+def _chunks(name, method, iv, collect_slice=True):
+    sub = ["kw_id==%s" % iv, "0<=start_i and start_i<end_i and end_i<=N",
+           "start_i==%s*step" % iv, "end_i==ite((%s+1)*step<N, (%s+1)*step, N)" % (iv, iv),
+           "implies(%s==parts-1, end_i==N)" % iv]
+    asserts = {"call:mpi.submit_call": sub}
+    call_facts = {}
+    if collect_slice:
+        # results are written to the slice the job itself reports (= the slice it was submitted with)
+        asserts["store:component_betweenness"] = [
+            "lo0==%s*step" % iv, "hi0==ite((%s+1)*step<N, (%s+1)*step, N)" % (iv, iv), "implies(%s==parts-1, hi0==N)" % iv]
+        # protocol assumption (FIFO model of utils/mpi.py, exercised by the bounded layer): get_result(id) returns the
+        # value of the call submitted with that id; the kernel contract (ROWLOCAL) says this value is
+        # (row values, start_i, end_i) of that job
+        call_facts = {"mpi.get_result": {"returns": 3, "types": ["obj", "int", "int"],
+                                         "ensures": ["result_1==arg0*step", "result_2==ite((arg0+1)*step<N, (arg0+1)*step, N)"]}}
+    inv = ["max_parts>=1", "step>=1", "step*max_parts>=N", "(step-1)*max_parts<N", "parts>=1", "parts*step>=N", "(parts-1)*step<N"]
+    c = K(name, "core/network.py", lang="py", func=method, props=("C19",), py_mode=True, inputs={"N": "int"},
+          requires=["N>=2"],
+          # the float expressions are exact ceilings for N < 2^26 (assumption listed in the evidence)
+          # SUBMIT: exactly one job per chunk index has been submitted when collection starts,
+          # whatever the verbosity; COLLECT: exactly one result is fetched per chunk index
+          loops={iv: inv + ["count('mpi.submit_call')==%s" % iv],
+                 iv + "#2": ["parts>=1", "step>=1", "parts*step>=N", "(parts-1)*step<N",
+                             "count('mpi.submit_call')==parts", "count('mpi.get_result')==%s" % iv]},
+          count_calls=("mpi.submit_call", "mpi.get_result"),
+          asserts=asserts, call_facts=call_facts, checks=("divzero",))
+    c.region = "if:mpi.available"
+    return c
+
+
+_chunks("newman_betweenness[master]", "Network.newman_betweenness", "index")
+_chunks("nsi_newman_betweenness[master]", "Network.nsi_newman_betweenness", "idx")
+_chunks("nsi_arenas_betweenness[master]", "Network.nsi_arenas_betweenness", "index", collect_slice=False)
